@@ -887,7 +887,9 @@ func (w *CliWorld) closeConn() {
 
 func (w *CliWorld) drainGrantAction() *Action {
 	const target = int64(1 << 28)
-	if avail := w.connGranted - w.connRecv; avail < target/2 {
+	// only what is needed: a sender that stays parked although both of its windows are open is the defect the drain
+	// phase is there to expose, and a grant it did not need would wake it up
+	if avail := w.connGranted - w.connRecv; avail <= 0 {
 		inc := target - avail
 		return &Action{Name: fmt.Sprintf("drain-grant conn +%d", inc), Env: true, Run: func() {
 			w.connGranted += inc
@@ -907,7 +909,7 @@ func (w *CliWorld) drainGrantAction() *Action {
 		}
 		avail := lo + w.streamWupd[id] - ss.RecvBytes
 		hi := w.permissiveInit() + w.streamWupd[id] - ss.RecvBytes
-		if avail < target/2 && hi < target {
+		if avail <= 0 && hi < target {
 			inc := target - hi
 			id := id
 			return &Action{Name: fmt.Sprintf("drain-grant stream %d +%d", id, inc), Env: true, Run: func() {
